@@ -99,3 +99,86 @@ Proof. vm_compute. split; reflexivity. Qed.
 Example conn_first : connection_edge_count (AInt 3) AAbsent 7 = Some 3 /\ connection_edge_count (AInt 0) AAbsent 7 = Some 0
                      /\ connection_edge_count AAbsent (AInt 10) 7 = Some 7 /\ connection_edge_count (AInt 3) (AInt 2) 7 = None.
 Proof. vm_compute. repeat split. Qed.
+
+(** * round 3 *)
+From ApiFu Require Val.Values Val.CoerceModel Val.CoerceSpec Val.CoerceProofs Relay.RelayModel.
+From ApiFu Require Import Cost.CostArgs Cost.CostArgsProofs Cost.CostFragments Cost.CostRelay.
+
+(** ** a cost function over a list argument and an input-object argument with a field default:
+    [f(xs: [Int], o: In)] with [input In { r: Int = 2, m: Int }], selection [f(xs: $l, o: {m: $v})],
+    variables [$l: [Int] = [4, 5]] (not provided: the default) and [$v: Int] (provided: 3).
+    The cost function sees xs = [4, 5] and o = {m: 3, r: 2}: the field default was filled in. *)
+Definition nm (l : list N) : bytes := l.
+Definition n_Int' := nm [73; 110; 116]%N.   Definition n_In := nm [73; 110]%N.
+Definition n_xs := nm [120; 115]%N.          Definition n_o := nm [111]%N.
+Definition n_r := nm [114]%N.                Definition n_m := nm [109]%N.
+Definition n_l := nm [108]%N.                Definition n_v := nm [118]%N.
+Definition EE : Values.env :=
+  [(n_Int', Values.TScalar Values.KInt);
+   (n_In, Values.TInput [(n_r, {| Values.in_type := Values.StNamed n_Int'; Values.in_default := Some (Values.GInt 2) |});
+                         (n_m, {| Values.in_type := Values.StNamed n_Int'; Values.in_default := None |})] Values.HNone)].
+Definition the_field : afield Z :=
+  {| af_argdefs := [(n_xs, {| Values.in_type := Values.StList (Values.StNamed n_Int'); Values.in_default := None |});
+                    (n_o, {| Values.in_type := Values.StNamed n_In; Values.in_default := None |})];
+     af_args := [(n_xs, Values.LVar n_l); (n_o, Values.LObject [(n_m, Values.LVar n_v)])];
+     af_cost := Some (fun ctx a => Some {| fc_r := match Values.aget n_xs a with Some (Values.GList l) => Z.of_nat (length l) | _ => 0 end;
+                                           fc_m := 0; fc_ctx := None |}) |}.
+Definition the_defs : list Values.vardef :=
+  [{| Values.vd_name := n_l; Values.vd_type := Values.StList (Values.StNamed n_Int');
+      Values.vd_default := Some (Values.LList [Values.LInt 4; Values.LInt 5]) |};
+   {| Values.vd_name := n_v; Values.vd_type := Values.StNamed n_Int'; Values.vd_default := None |}].
+Definition the_raw : list (Values.name * Values.jval) := [(n_v, Values.JInt 3)].
+Definition dtn : bytes -> option bytes := fun _ => None.
+
+Example args_hypotheses :
+  CoerceModel.static_ok CoerceModel.all_fixed EE dtn true (af_argdefs the_field) the_defs (af_args the_field) = true /\
+  CoerceSpec.env_closed EE = true /\ CoerceSpec.env_ok EE = true /\
+  CoerceModel.has_dup (map fst (af_argdefs the_field)) = false /\
+  forallb (fun ad => CoerceSpec.default_ok EE (snd ad)) (af_argdefs the_field) = true /\
+  forallb (fun ad => CoerceSpec.sty_closed EE (Values.in_type (snd ad))) (af_argdefs the_field) = true /\
+  field_usage_ok Z EE the_defs the_field = true /\
+  CoerceModel.coerce_variable_values CoerceModel.all_fixed EE dtn the_defs the_raw
+  = Values.Ok [(n_l, Values.GList [Values.GInt 4; Values.GInt 5]); (n_v, Values.GInt 3)].
+Proof. vm_compute. repeat split; reflexivity. Qed.
+
+Example args_seen :
+  CoerceSpec.ref_request EE dtn (af_argdefs the_field) the_defs (af_args the_field) the_raw
+  = Some [(n_o, Values.GMap [(n_m, Values.GInt 3); (n_r, Values.GInt 2)]);
+          (n_xs, Values.GList [Values.GInt 4; Values.GInt 5])].
+Proof. vm_compute. reflexivity. Qed.
+
+(** the whole rule on the request { f(xs: $l, o: {m: $v}) }: cost 2 = the length of the default list *)
+Example request_costed :
+  validate_cost_request Z EE dtn true 1 dflt 0
+    [{| ao_name := None; ao_vardefs := the_defs; ao_body := ANode AOther [ANode (AField the_field) []] |}]
+    [] [] the_raw 5
+  = Done 2 false.
+Proof. vm_compute. reflexivity. Qed.
+
+(** ** a connection whose application ignores the limit and hands over 5 edges for [last: 2] with a
+    null [first]: 2 edges are served, the multiplier charged is 2 *)
+Definition greedy : RelayModel.app Z Z :=
+  {| RelayModel.app_has_all := false; RelayModel.app_all := RelayModel.Err RelayModel.EApp;
+     RelayModel.app_edges := fun _ _ _ => RelayModel.Ok (RelayModel.Sync [5; 1; 4; 2; 3]);
+     RelayModel.app_total := None |}.
+Definition the_args : RelayModel.args :=
+  {| RelayModel.a_first := count_of ANull; RelayModel.a_last := count_of (AInt 2);
+     RelayModel.a_after := None; RelayModel.a_before := None |}.
+Example relay_instance :
+  exists pi total,
+    RelayModel.serve Z Z Z.ltb (fun e => e) (fun _ => [1%N]) (fun _ => None) greedy the_args
+    = RelayModel.RData [4; 5] pi total.
+Proof. eexists; eexists. vm_compute. reflexivity. Qed.
+Example relay_charged :
+  match fc_ctx (default_connection_cost (U := unit) ANull (AInt 2) {| k_user := tt; k_max_edge := None |}) with
+  | Some c => option_map (fun fc => fc_m fc) (edges_cost c)
+  | None => None
+  end = Some 2.
+Proof. vm_compute. reflexivity. Qed.
+
+(** ** the fragment-locality theorems: the example document above meets their hypotheses (fragment G
+    under the contexts 5 and 7, multipliers 3 and 3 * 2^62) *)
+Example fragment_body_expands :
+  Expand dflt frs [nF] 5 (Node KOther [Node KOther [rc]]) [ENode 5 0 []] /\
+  Expand dflt frs [] 7 (Node KOther [Node KOther [rc]]) [ENode 7 0 []].
+Proof. split; apply (expand_sound Z dflt frs 3); vm_compute; reflexivity. Qed.
